@@ -249,7 +249,13 @@ Inductive sop :=
 | SRowTuple (c : nat) (cells : list V)            (* class c applied to a tuple                  -> new row handle *)
 | SAppend (f : nat) (d : list (K * V))            (* frame f .append(dictionary) *)
 | SRows (f : nat)                                 (* read column_names and the rows of frame f *)
-| SView (r : nat).                                (* read keys / cells / as_dict of row r again *)
+| SView (r : nat)                                 (* read keys / cells / as_dict of row r again *)
+| SReframe (f : nat) (cols : list K)              (* DataFrame(rows=list(frame f), schema=cols): the Row objects of
+                                                     frame f under a column list of its own  -> new frame handle *)
+| SDerive (f : nat) (n : nat).                    (* frame f .head(n) / .slice(0, n) / .query(always true): a frame over the
+                                                     first n Row objects of frame f, same columns -> new frame handle.
+                                                     It takes dictionaries (if frame f came from Arrow only ones that pass
+                                                     its schema's validation, which the harness guarantees) *)
 
 Inductive sout :=
 | SOClass
@@ -308,6 +314,19 @@ Definition sstep (s : sstate) (o : sop) : sstate * sout :=
       | Some fr => (s, row_out fr)
       | None => (s, SOSkip)
       end
+  | SReframe f cols =>
+      match nth_error (s_frames s) f with
+      | Some (_, fr) =>
+          (SState (s_classes s) (s_frames s ++ [(true, (cols, snd fr))]) (s_rows s), SOFrame cols (snd fr))
+      | None => (s, SOSkip)
+      end
+  | SDerive f n =>
+      match nth_error (s_frames s) f with
+      | Some (_, fr) =>
+          (SState (s_classes s) (s_frames s ++ [(true, (fst fr, firstn n (snd fr)))]) (s_rows s),
+           SOFrame (fst fr) (firstn n (snd fr)))
+      | None => (s, SOSkip)
+      end
   end.
 
 Fixpoint srun (s : sstate) (ops : list sop) : sstate * list sout :=
@@ -323,7 +342,7 @@ Arguments SState {K V}. Arguments s_classes {K V}. Arguments s_frames {K V}. Arg
 Arguments s_init {K V}.
 Arguments SClass {K V}. Arguments SArrow {K V}. Arguments SFrame {K V}. Arguments SNamed {K V}.
 Arguments SRowDict {K V}. Arguments SRowTuple {K V}. Arguments SAppend {K V}. Arguments SRows {K V}.
-Arguments SView {K V}.
+Arguments SView {K V}. Arguments SReframe {K V}. Arguments SDerive {K V}.
 Arguments SOClass {K V}. Arguments SOFrame {K V}. Arguments SORow {K V}. Arguments SOSkip {K V}.
 Arguments SORaise {K V}.
 Arguments row_out {K V}. Arguments sstep {K V}. Arguments srun {K V}.
